@@ -292,6 +292,25 @@ def c13_cases(tier):
     var('twin', '#[enum_tools(rename = "x")]', 'accept')
     var('twin-with-foreign-attrs', '#[doc = "d"] #[enum_tools(rename = "x")] #[allow(unused)]', 'accept')
     var('twin-empty-string', '#[enum_tools(rename = "")]', 'accept')
+    # variant attributes are validated whatever the enum-level features are: the renames are consumed by the string
+    # features only, but the loop that reads them is also the only place that rejects malformed ones
+    CTX = [('iter', ['iter']), ('range', ['range', 'iter']), ('next', ['next']), ('next_back', ['next_back']), ('min-max', ['MIN', 'MAX']),
+           ('Into', ['Into']), ('into', ['into']), ('TryFrom', ['TryFrom']), ('try_from', ['try_from']), ('sorted-value', ['sorted(value)']),
+           ('sorted-name', ['sorted(name)']), ('numeric-all', ['iter', 'range', 'next', 'next_back', 'MIN', 'MAX', 'Into', 'into', 'TryFrom', 'try_from']),
+           ('as_str', ['as_str']), ('from_str', ['from_str']), ('FromStr', ['FromStr']), ('Debug', ['Debug']), ('Display', ['Display']),
+           ('IntoStr', ['IntoStr']), ('names', ['names']), ('as_str-match', ['as_str(mode = "match")'])]
+    BAD = [('flag', '#[enum_tools(skip)]'), ('rename-int', '#[enum_tools(rename = 5)]'), ('other-key', '#[enum_tools(name = "b")]'),
+           ('bare', '#[enum_tools]'), ('second-attr-invalid', '#[enum_tools(rename = "x")] #[enum_tools(skip)]')]
+    for cname, feats in CTX:
+        attrs = ['#[enum_tools(%s)]' % ', '.join(feats)]
+        for vpos, vs_of in (('middle', lambda a: ['A', '%s B' % a, 'C']), ('first', lambda a: ['%s A' % a, 'B', 'C']), ('last', lambda a: ['A', 'B', '%s C' % a])):
+            for bname, battr in BAD:
+                if vpos != 'middle' and bname not in ('flag', 'rename-int'):
+                    continue
+                n[0] += 1
+                out.append(case('c13_%03d_varctx' % n[0], 'C13', 'variant-under/%s/%s/%s' % (cname, vpos, bname), enum_src(attrs, 'u8', vs_of(battr)), 'reject', 'derive'))
+        n[0] += 1
+        out.append(case('c13_%03d_varctx' % n[0], 'C13', 'variant-under/%s/twin' % cname, enum_src(attrs, 'u8', ['A', '#[enum_tools(rename = "B2")] B', 'C']), 'accept', 'derive'))
     return out
 
 # ------------------------------------------------------------------------------------------------ C14
